@@ -49,6 +49,10 @@ def body(case, env):
         if 'quota' in ' '.join(fsgen.config_by_name(case['cfg'])['features']): targets = targets + ['cfg:quota']
         if 'bigalloc' in ' '.join(fsgen.config_by_name(case['cfg'])['features']): targets = targets + ['cfg:bigalloc']
         obs = dict(kind='not-converged', cfg=case['cfg'], areas=targets, rc1=p1.rc, rc2=p2.rc, second_codes=codes2, first_fixed=sorted(set(fixed))[:30], second_run_says=first_lines, applied=desc)
+        # what the first run had to deal with, as far as a known finding needs it to be told apart
+        inv = []
+        if 'quota inode>' in p1.out and 'ultiply-claimed block' in p1.out: inv.append('quota-inode-shared-blocks')
+        obs['first_run_involves'] = inv
         return (obs, fp, True, None, classes)
     nontrivial = bool(p1.rc & 1 or fixed)
     sample = dict(cfg=case['cfg'], applied=desc, first_run_fixed=sorted(set(fixed))[:8]) if nontrivial else None
